@@ -23,7 +23,10 @@ func init() { Registry["C15"] = c15 }
 const c15Marker = "OUTSIDE-MARKER-7f3a"
 
 var c15Hostile = []string{"..", ".", "", "a/b", "a\\b", "/etc/passwd", "../outside.txt", "../../..", "..a", "...", "x\x00y",
-	strings.Repeat("L", 300), strings.Repeat("M", 5000), "sub", "f.txt", "new", "../export-evil", "export-evil", "/", "\\", "..\\outside.txt"}
+	strings.Repeat("L", 300), strings.Repeat("M", 5000), "sub", "f.txt", "new", "../export-evil", "export-evil", "/", "\\", "..\\outside.txt",
+	// names that a host-level normalisation applied after validation (blank
+	// stripping, dropping invalid UTF-8, case or width folding) would turn into ".."
+	".. ", " ..", ".\xff.", "..\xff", "\uff0e\uff0e"}
 
 // scratchBase is where temporary trees go: the check's scratch directory
 // (removed by bin/vcheck), never /repo or /verif.
@@ -315,7 +318,8 @@ func c15Deep(level int) []string {
 	for _, n := range append([]string{}, deep...) {
 		deep = append(deep, strings.ReplaceAll(n, "/", "\\"), strings.Replace(n, "/", "\\", 1))
 	}
-	return append(deep, "..\\planted", "..\\..\\planted", "sub\\..\\..\\planted", "x\\..\\..\\..\\planted")
+	return append(deep, "..\\planted", "..\\..\\planted", "sub\\..\\..\\planted", "x\\..\\..\\..\\planted",
+		".. /planted", ".. /.. /planted", ".. /.. /.. /planted", ".\xff./planted", ".\xff./.\xff./planted", ".\xff./.\xff./.\xff./planted", " ../ ../planted")
 }
 
 func c15Alphabet(fids []p9p.Fid, maxList int, names []string, deep []string) []UOp {
@@ -348,7 +352,7 @@ func c15Alphabet(fids []p9p.Fid, maxList int, names []string, deep []string) []U
 func c15(c *core.Ctx) {
 	c.SetLevel("model_checking")
 	c.Budget(100*time.Second, 12*time.Minute)
-	c.SetRule("real ufs server behind SFileSys on a private temp tree D/{outside.txt, export-evil/, export/}; start states: populated export with fids at depth 0,1,2 and an EMPTY export; histories of 1..2 (quick) / 1..3 (thorough) requests: walk with every name list of length <= 3 (depth 1) / <= 2 / 1 (deeper) over the hostile alphabet (.., ., empty, a/b, a\\\\b, absolute, ../ chains in both separators, NUL, 300 and 5000 characters, ordinary), create / mkdir / rename-to every hostile name, remove; after every request: everything outside the export is unchanged (type, mode, inode, mtime, size, content, listing), the export root still exists with its inode, no qid of an outside file and no outside content was returned. outcome = first-request kind x verdict")
+	c.SetRule("real ufs server behind SFileSys on a private temp tree D/{outside.txt, export-evil/, export/}; start states: populated export with fids at depth 0,1,2 and an EMPTY export; histories of 1..2 (quick) / 1..3 (thorough) requests: walk with every name list of length <= 3 (depth 1) / <= 2 / 1 (deeper) over the hostile alphabet (.., ., empty, a/b, a\\\\b, absolute, ../ chains in both separators, '..' with trailing/leading blanks, with invalid UTF-8 inside, in full-width dots, NUL, 300 and 5000 characters, ordinary), create / mkdir / rename-to every hostile name, remove; after every request: everything outside the export is unchanged (type, mode, inode, mtime, size, content, listing), the export root still exists with its inode, no qid of an outside file and no outside content was returned. outcome = first-request kind x verdict")
 	c.Assume("runs as root on tmpfs: permission denials do not occur", "symbolic links inside the export are outside the guarantee and are not created")
 	type job struct {
 		empty bool
